@@ -1,7 +1,8 @@
 (* C11Hold.v -- C11 case record and verified-oracle judgement. *)
 From LV Require Import Base FS FSFacts LayerShared.
 
-Inductive c11_op := OpDeleteLayer | OpRdr | OpRecreate.   (* OpRecreate: BuildContext::uncached_layer on the layer *)
+Inductive c11_op := OpDeleteLayer | OpRdr | OpRecreate    (* OpRecreate: BuildContext::uncached_layer on the layer *)
+                  | OpReadLayer.                           (* shared::read_layer through the hook *)
 Inductive c11_res := ROk | RErrno (e : errno) | ROther.
 
 Record case := mkCase {
@@ -18,6 +19,7 @@ Definition owned_of (c : case) : path -> bool :=
   match c_op c with
   | OpDeleteLayer | OpRecreate => owned spec_sbom_suffixes (c_layers c) (c_name c)
   | OpRdr => is_prefix (c_layers c ++ [c_name c])
+  | OpReadLayer => path_eqb (c_layers c ++ [toml_name (c_name c)])
   end.
 
 (* every file, directory, permission and link target outside the layer is exactly as before
@@ -27,6 +29,17 @@ Definition spec_run (c : case) : fs * result errno unit :=
   match c_op c with
   | OpDeleteLayer | OpRecreate => delete_layer true true spec_sbom_suffixes (c_layers c) (c_name c) (c_pre c)
   | OpRdr => remove_dir_recursively true (rdr_fuel (c_pre c)) (c_layers c ++ [c_name c]) (c_pre c)
+  | OpReadLayer => (c_pre c, Ok tt)      (* judged by read_effect_ok below *)
+  end.
+
+(* the conclusion of c11_read_layer_effect, read off the observed directories: nothing changed, or the
+   <name>.toml ENTRY is gone, or an empty regular file stands where the path held no entry *)
+Definition read_effect_ok (c : case) : bool :=
+  let tp := c_layers c ++ [toml_name (c_name c)] in
+  fs_eqb (c_post c) (c_pre c) || fs_eqb (c_post c) (pdel tp (c_pre c)) ||
+  match pget tp (c_pre c), pget tp (c_post c) with
+  | None, Some (File m (Raw [])) => fs_eqb (c_post c) (pset tp (File m (Raw [])) (c_pre c))
+  | _, _ => false
   end.
 
 (* every file, directory, permission and link target outside the layer is exactly as before
@@ -36,6 +49,7 @@ Definition spec_run (c : case) : fs * result errno unit :=
 Definition holds (c : case) : bool :=
   frame_chk (owned_of c) (c_pre c) (c_post c) &&
   match c_res c, c_op c with
+  | _, OpReadLayer => read_effect_ok c
   | ROk, OpRecreate =>
       (* the old entries are gone: what the layer owns afterwards is a fresh empty directory and a fresh
          REGULAR content-metadata file (not the link or file that was there before) *)
